@@ -128,6 +128,29 @@ Fixpoint handoffs_of (t : nat) (l : list entry) : list msg :=
 
 Definition drained (s : pstate) : Prop := ready s = [] /\ queue s = [] /\ cur s = [].
 
+(* ------------------------------------------------------------------ protocol v5 send path (Connection.send_msg)
+   On a checksumming connection send_msg turns the CQL frame into segments (SegmentCodec.encode: one self-contained
+   segment, or slices of MAX_PAYLOAD_LENGTH bytes each in its own non-self-contained segment), assembles ALL of them in one
+   buffer and hands that buffer to push() in ONE call: the unit the reactors keep contiguous is the whole run of segments. *)
+Definition encode_v5 (enc_segment : bool -> msg -> msg) (maxp : nat) (frame : msg) : option msg :=
+  match chunks maxp frame with
+  | Some ps => Some (concat (map (enc_segment (Nat.eqb (length ps) 1)) ps))
+  | None => None
+  end.
+
+Definition encode_v5_or_nil enc_segment maxp frame : msg :=
+  match encode_v5 enc_segment maxp frame with Some b => b | None => [] end.
+
+(* what thread t pushes when it sends the frames `frames t` through send_msg *)
+Definition send_prog enc_segment (maxp : nat) (frames : nat -> list msg) : nat -> list msg :=
+  fun t => map (encode_v5_or_nil enc_segment maxp) (frames t).
+
+(* the variant that pushes every segment on its own (one push() per segment) *)
+Definition send_prog_per_segment (enc_segment : bool -> msg -> msg) (maxp : nat) (frames : nat -> list msg) : nat -> list msg :=
+  fun t => flat_map (fun fr => match chunks maxp fr with
+                               | Some ps => map (enc_segment (Nat.eqb (length ps) 1)) ps
+                               | None => [] end) (frames t).
+
 (* ------------------------------------------------------------------ correspondence helpers *)
 (* programs as a list (thread i = i-th list); a message = (byte value, length) *)
 Definition mk_msg (d : Z * nat) : msg := repeat (fst d) (snd d).
